@@ -260,7 +260,7 @@ def run(ctx):
     sys.setswitchinterval(1e-5)
     fresh = Fresh()
     modes = ["sequential", "threads-2", "threads-4", "threads-8", "http-simple", "http-pooled"]
-    nseq = ctx.pick(9, 150)
+    nseq = ctx.pick(9, 500)
     for i in range(nseq):
         if ctx.time_left() < 10:
             ctx.unsure("time budget exhausted after %d histories" % i)
